@@ -339,12 +339,26 @@ def run_request(ctx, schema, source, variables, op_name, rng, p_raise, want_asyn
     log = []
     resolver = make_resolver(schema, rng, p_raise, log, want_async)
     ctx.count("requests_run")
+    # the documented request options, given now and then: an error limit and an explicit rule list (seeded by the case)
+    opts = {}
+    orng = random.Random(case.get("seed", 0) ^ 0x5bd1e995)
+    k = orng.random()
+    if k < 0.12:
+        opts["max_errors"] = orng.choice([0, 1, 2, 5, 100])
+    elif k < 0.2:
+        from graphql.validation import specified_rules
+        opts["rules"] = orng.sample(list(specified_rules), orng.randint(0, len(specified_rules)))
+    elif k < 0.25:
+        from graphql.validation import specified_rules
+        opts["rules"], opts["max_errors"] = list(specified_rules), orng.choice([1, 3])
+    if opts:
+        ctx.count("requests_with_validation_options")
     try:
         if want_async:
             ctx.count("async_requests_run")
-            res = asyncio.run(graphql(schema, source, variable_values=variables, operation_name=op_name, field_resolver=resolver))
+            res = asyncio.run(graphql(schema, source, variable_values=variables, operation_name=op_name, field_resolver=resolver, **opts))
         else:
-            res = graphql_sync(schema, source, variable_values=variables, operation_name=op_name, field_resolver=resolver)
+            res = graphql_sync(schema, source, variable_values=variables, operation_name=op_name, field_resolver=resolver, **opts)
     except Exception as e:  # noqa: BLE001
         import traceback
         tb = traceback.extract_tb(e.__traceback__)
